@@ -1435,3 +1435,340 @@ Proof.
   intros a pol ops p q s s' slot. destruct (announce_replaces a pol ops p q) as [H1 H2].
   split; [|exact H2]. exists (stored_form s q). split; [exact H1 | apply stored_form_pid].
 Qed.
+
+(* ------------------------------------------------------------------ C06: provenance of everything a client gets *)
+Section Provenance.
+  Variable Src : pfx -> path -> Prop.
+  Variable Chs : policy -> Prop.
+
+  Definition Just (p : pfx) (q' : path) : Prop := exists qn c, Src p qn /\ Chs c /\ c p qn = Some q'.
+
+  Definition Gd (s : st) : Prop :=
+    (forall c p q', In (p, q') (ct_get c (ctabs s)) -> Just p q') /\
+    (forall e c p q', In e (log s) -> delivered e = Some (c, p, q') -> Just p q').
+
+  Definition okf (f : ctable -> ctable) : Prop :=
+    forall t, (forall p q', In (p, q') t -> Just p q') -> forall p q', In (p, q') (f t) -> Just p q'.
+  Definition oke (e : event) : Prop := forall c p q', delivered e = Some (c, p, q') -> Just p q'.
+
+  Lemma ct_get_upd_cases : forall c k f m, ct_get c (ct_upd k f m) = if c =? k then f (ct_get c m) else ct_get c m.
+  Proof.
+    intros. destruct (c =? k) eqn:E.
+    - apply N.eqb_eq in E. subst. apply ct_get_upd_same.
+    - apply ct_get_upd_other. intro. subst. rewrite N.eqb_refl in E. discriminate.
+  Qed.
+
+  Lemma call_Gd : forall c e f s, Gd s -> oke e -> okf f -> Gd (call c e f s).
+  Proof.
+    intros c e f s [G1 G2] He Hf. split; simpl.
+    - intros k p q' Hin. rewrite ct_get_upd_cases in Hin. destruct (k =? c).
+      + eapply Hf; [|exact Hin]. intros p0 q0 H0. eapply G1, H0.
+      + eapply G1, Hin.
+    - intros e0 k p q' [Hin|Hin] Hd; [subst e0; eapply He, Hd | eapply G2; eassumption].
+  Qed.
+
+  Lemma calls_Gd : forall (mk : N -> event) f l s, Gd s -> (forall c, oke (mk c)) -> okf f ->
+    Gd (fold_left (fun acc c => call c (mk c) f acc) l s).
+  Proof.
+    induction l as [|c l IH]; intros s HG He Hf; simpl; [exact HG|].
+    apply IH; [apply call_Gd; auto | exact He | exact Hf].
+  Qed.
+
+  Lemma okf_remove : forall p q, okf (ct_remove p q).
+  Proof. intros p q t H p0 q0 Hin. apply H. eapply ct_remove_subset, Hin. Qed.
+  Lemma okf_add : forall p q, Just p q -> okf (ct_add p q).
+  Proof.
+    intros p q HJ t H p0 q0 Hin. unfold ct_add in Hin. apply in_app_or in Hin.
+    destruct Hin as [Hin|[Hin|[]]]; [apply H, Hin | inversion Hin; subst; exact HJ].
+  Qed.
+  Lemma okf_replace : forall p o n, Just p n -> okf (ct_replace p o n).
+  Proof.
+    intros p o n HJ t. induction t as [|[p' q'] r IH]; intros H p0 q0 Hin; simpl in Hin; [contradiction|].
+    destruct ((p' =? p) && peq q' o) eqn:E.
+    - destruct Hin as [Hin|Hin].
+      + inversion Hin; subst. apply andb_true_iff in E. destruct E as [E _]. apply N.eqb_eq in E. subst. exact HJ.
+      + apply H. right. exact Hin.
+    - destruct Hin as [Hin|Hin].
+      + inversion Hin; subst. apply H. left. reflexivity.
+      + apply IH; [|exact Hin]. intros p1 q1 H1. apply H. right. exact H1.
+  Qed.
+  Lemma okf_id : okf (fun t => t).
+  Proof. intros t H. exact H. Qed.
+
+  Lemma oke_remove : forall c p q, oke (EvRemove c p q).
+  Proof. intros c p q k p0 q0 H. discriminate. Qed.
+  Lemma oke_eor : forall c, oke (EvEOR c).
+  Proof. intros c k p0 q0 H. discriminate. Qed.
+  Lemma oke_add : forall c p q, Just p q -> oke (EvAdd c p q).
+  Proof. intros c p q HJ k p0 q0 H. inversion H; subst. exact HJ. Qed.
+  Lemma oke_dump : forall c p q, Just p q -> oke (EvDump c p q).
+  Proof. intros c p q HJ k p0 q0 H. inversion H; subst. exact HJ. Qed.
+  Lemma oke_replace : forall c p o n, Just p n -> oke (EvReplace c p o n).
+  Proof. intros c p o n HJ k p0 q0 H. inversion H; subst. exact HJ. Qed.
+
+  Lemma call_all_Gd : forall mk f s, Gd s -> (forall c, oke (mk c)) -> okf f -> Gd (call_all mk f s).
+  Proof. intros. apply calls_Gd; assumption. Qed.
+
+  Lemma notify_remove_Gd : forall p l s, Gd s -> Gd (notify_remove p l s).
+  Proof.
+    intros p l. unfold notify_remove. induction l as [|q l IH]; intros s HG; simpl; [exact HG|].
+    apply IH. destruct (negb (hid q =? 0)); [exact HG|]. destruct (chain s p q); [|exact HG].
+    apply call_all_Gd; [exact HG | intro; apply oke_remove | apply okf_remove].
+  Qed.
+
+  Lemma Gd_set_tab : forall s t, Gd s -> Gd (set_tab s t).
+  Proof. intros s t H. exact H. Qed.
+
+  (* stored, non-hidden entries come from eligible announcements; the chain is a known policy *)
+  Definition Jt (s : st) : Prop :=
+    (forall p q, In (p, q) (tab s) -> hid q = 0 -> Src p q) /\ Chs (chain s).
+
+  Lemma rt_remove_all_subset : forall p l t e, In e (rt_remove_all p l t) -> In e t.
+  Proof.
+    intros p l. unfold rt_remove_all. induction l as [|x l IH]; intros t e H; simpl in H; [exact H|].
+    apply IH in H. eapply ct_remove_subset, H.
+  Qed.
+
+  Lemma notify_remove_core : forall p l s, core_eq s (notify_remove p l s).
+  Proof.
+    intros p l. unfold notify_remove. induction l as [|q l IH]; intro s; simpl; [apply core_eq_refl|].
+    eapply core_eq_trans; [|apply IH]. destruct (negb (hid q =? 0)); [apply core_eq_refl|].
+    destruct (chain s p q); [apply call_all_core | apply core_eq_refl].
+  Qed.
+
+  Lemma remove_path_J : forall p oid s, Jt s -> Gd s -> Jt (remove_path p oid s) /\ Gd (remove_path p oid s).
+  Proof.
+    intros p oid s [T1 T2] HG. unfold remove_path.
+    set (rem := match oid with Some i => _ | None => _ end).
+    pose proof (notify_remove_core p rem (set_tab s (rt_remove_all p rem (tab s)))) as (_&Hc&Ht&_).
+    split; [|apply notify_remove_Gd, Gd_set_tab, HG].
+    split; [|rewrite <- Hc; exact T2]. intros p0 q0 Hin Hh. rewrite <- Ht in Hin. simpl in Hin.
+    apply T1; [eapply rt_remove_all_subset, Hin | exact Hh].
+  Qed.
+
+  Lemma flush_J : forall s, Jt s -> Gd s -> Jt (flush s) /\ Gd (flush s).
+  Proof.
+    intro s. change (flush s) with (flush_loop (tab s) s). generalize (tab s). intro l. revert s.
+    induction l as [|e l IH]; intros s HT HG; simpl; [auto|].
+    destruct (remove_path_J (fst e) (Some (pid (snd e))) s HT HG) as [H1 H2]. apply IH; assumption.
+  Qed.
+
+  Lemma single_fold_Gd : forall (mk : pfx -> path -> event) (f : pfx -> path -> ctable -> ctable) c l s,
+    (forall p q q', In (p, q) l -> hid q = 0 -> chain s p q = Some q' -> oke (mk p q') /\ okf (f p q')) ->
+    Gd s ->
+    Gd (fold_left (fun acc e =>
+              if negb (hid (snd e) =? 0) then acc else
+              match chain acc (fst e) (snd e) with
+              | None => acc
+              | Some q' => call c (mk (fst e) q') (f (fst e) q') acc
+              end) l s).
+  Proof.
+    induction l as [|[p q] l IH]; intros s H HG; simpl; [exact HG|].
+    destruct (hid q =? 0) eqn:Eh; simpl.
+    - destruct (chain s p q) as [q'|] eqn:Ec.
+      + apply IH.
+        * intros p0 q0 q0' Hin Hh Hc. simpl in Hc. apply (H p0 q0 q0'); [right; exact Hin | exact Hh | exact Hc].
+        * destruct (H p q q' (or_introl eq_refl) (proj1 (N.eqb_eq _ _) Eh) Ec) as [He Hf]. apply call_Gd; assumption.
+      + apply IH; [|exact HG]. intros p0 q0 q0' Hin Hh Hc. apply (H p0 q0 q0'); [right; exact Hin | exact Hh | exact Hc].
+    - apply IH; [|exact HG]. intros p0 q0 q0' Hin Hh Hc. apply (H p0 q0 q0'); [right; exact Hin | exact Hh | exact Hc].
+  Qed.
+
+  Lemma register_J : forall c s, Jt s -> Gd s -> Jt (register c s) /\ Gd (register c s).
+  Proof.
+    intros c s [T1 T2] HG. destruct (register_core c s) as (_&E2&E3&_).
+    split; [split; [rewrite E3; exact T1 | rewrite E2; exact T2]|].
+    unfold register. set (s1 := if existsb (N.eqb c) (regs s) then s else set_regs s (regs s ++ [c])).
+    assert (H1 : tab s1 = tab s /\ chain s1 = chain s /\ Gd s1) by (unfold s1; destruct (existsb _ _); repeat split; apply HG).
+    destruct H1 as (Ht&Hc&HG1).
+    apply call_Gd; [|apply oke_eor | apply okf_id].
+    apply single_fold_Gd; [|exact HG1]. intros p q q' Hin Hh Hch. rewrite Ht in Hin. rewrite Hc in Hch.
+    assert (HJ : Just p q') by (exists q, (chain s); auto).
+    split; [apply oke_dump, HJ | apply okf_add, HJ].
+  Qed.
+
+  Lemma unregister_J : forall c s, Jt s -> Gd s -> Jt (unregister c s) /\ Gd (unregister c s).
+  Proof.
+    intros c s [T1 T2] HG. destruct (unregister_core c s) as (_&E2&E3&_).
+    split; [split; [rewrite E3; exact T1 | rewrite E2; exact T2]|].
+    unfold unregister. destruct (negb (existsb (N.eqb c) (regs s))); [exact HG|].
+    apply single_fold_Gd; [|exact HG]. intros p q q' _ _ _. split; [apply oke_remove | apply okf_remove].
+  Qed.
+
+  Lemma add_path_J : forall p q s, Jt s -> Gd s ->
+    (hid (stored_form s q) = 0 -> Src p (stored_form s q)) ->
+    Jt (add_path p q s) /\ Gd (add_path p q s).
+  Proof.
+    intros p q s [T1 T2] HG Hsrc. unfold add_path. cbv zeta. fold (stored_form s q).
+    set (qs := stored_form s q) in *.
+    set (old := if addpath_rx (sa s) then _ else _).
+    set (t1 := rt_remove_all p old (tab s) ++ [(p, qs)]).
+    pose proof (notify_remove_core p old (set_tab s t1)) as Hc1.
+    pose proof (notify_remove_Gd p old (set_tab s t1) (Gd_set_tab s t1 HG)) as HG1.
+    set (s1 := notify_remove p old (set_tab s t1)) in *.
+    assert (HT1 : Jt s1).
+    { destruct Hc1 as (_&Hc&Ht&_). split; [|rewrite <- Hc; exact T2].
+      intros p0 q0 Hin Hh. rewrite <- Ht in Hin. simpl in Hin. unfold t1 in Hin. apply in_app_or in Hin.
+      destruct Hin as [Hin|[Hin|[]]].
+      - apply T1; [eapply rt_remove_all_subset, Hin | exact Hh].
+      - inversion Hin; subst. apply Hsrc, Hh. }
+    assert (Hh : hid qs = fst (validate (sa s) (asns s) (cids s) q)) by apply stored_form_hid.
+    destruct (negb (fst (validate (sa s) (asns s) (cids s) q) =? 0)) eqn:Eh; [split; assumption|].
+    apply negb_false_iff, N.eqb_eq in Eh.
+    destruct (chain s p qs) as [q'|] eqn:Ec; [|split; assumption].
+    assert (HJ : Just p q') by (exists qs, (chain s); repeat split; [apply Hsrc; congruence | exact T2 | exact Ec]).
+    pose proof (call_all_core (fun c => EvAdd c p q') (ct_add p q') s1) as (_&Hc&Ht&_).
+    split.
+    - destruct HT1 as [A1 A2]. split; [rewrite <- Ht; exact A1 | rewrite <- Hc; exact A2].
+    - apply call_all_Gd; [exact HG1 | intro; apply oke_add, HJ | apply okf_add, HJ].
+  Qed.
+
+  Lemma replace_chain_J : forall c' s, Jt s -> Gd s -> Chs c' ->
+    Jt (replace_chain c' s) /\ Gd (replace_chain c' s).
+  Proof.
+    intros c' s [T1 T2] HG Hc'. destruct (replace_core c' s) as (_&E2&E3&_).
+    split; [split; [rewrite E3; exact T1 | rewrite E2; exact Hc']|].
+    rewrite replace_chain_unfold.
+    assert (H : forall l acc, (forall e, In e l -> In e (tab s)) -> Gd acc -> Gd (fold_left (rc_body s c') l acc)).
+    { induction l as [|[p q] l IH]; intros acc Hsub HGa; simpl; [exact HGa|].
+      apply IH; [intros e He; apply Hsub; right; exact He|].
+      unfold rc_body. cbn [fst snd]. destruct (hid q =? 0) eqn:Eh; cbn [negb]; [|exact HGa].
+      apply N.eqb_eq in Eh. assert (Hs : Src p q) by (apply T1; [apply Hsub; left; reflexivity | exact Eh]).
+      destruct (chain s p q) as [o|] eqn:Eo; destruct (c' p q) as [n|] eqn:En; try exact HGa.
+      - assert (HJ : Just p n) by (exists q, c'; auto).
+        destruct (negb (pcmp o n)); [|exact HGa].
+        apply call_all_Gd; [exact HGa | intro; apply oke_replace, HJ | apply okf_replace, HJ].
+      - apply call_all_Gd; [exact HGa | intro; apply oke_remove | apply okf_remove].
+      - assert (HJ : Just p n) by (exists q, c'; auto).
+        apply call_all_Gd; [exact HGa | intro; apply oke_add, HJ | apply okf_add, HJ]. }
+    apply H; [auto | exact HG].
+  Qed.
+End Provenance.
+
+Lemma Just_mono : forall (S1 S2 : pfx -> path -> Prop) (C1 C2 : policy -> Prop) p q,
+  (forall p q, S1 p q -> S2 p q) -> (forall c, C1 c -> C2 c) -> Just S1 C1 p q -> Just S2 C2 p q.
+Proof. intros S1 S2 C1 C2 p q HS HC (qn&c&A&B&D). exists qn, c. auto. Qed.
+
+Lemma J_mono : forall (S1 S2 : pfx -> path -> Prop) (C1 C2 : policy -> Prop) s,
+  (forall p q, S1 p q -> S2 p q) -> (forall c, C1 c -> C2 c) ->
+  Jt S1 C1 s /\ Gd S1 C1 s -> Jt S2 C2 s /\ Gd S2 C2 s.
+Proof.
+  intros S1 S2 C1 C2 s HS HC [[T1 T2] [G1 G2]]. split; split.
+  - intros p q Hin Hh. apply HS, T1; assumption.
+  - apply HC, T2.
+  - intros c p q' Hin. eapply Just_mono; [exact HS | exact HC | eapply G1, Hin].
+  - intros e c p q' Hin Hd. eapply Just_mono; [exact HS | exact HC | eapply G2; eassumption].
+Qed.
+
+Lemma J_vrf : forall (S1 : pfx -> path -> Prop) (C1 : policy -> Prop) s s',
+  tab s' = tab s -> chain s' = chain s -> ctabs s' = ctabs s -> log s' = log s ->
+  Jt S1 C1 s /\ Gd S1 C1 s -> Jt S1 C1 s' /\ Gd S1 C1 s'.
+Proof.
+  intros S1 C1 s s' E1 E2 E3 E4 [[T1 T2] [G1 G2]]. unfold Jt, Gd. rewrite E1, E2, E3, E4. auto.
+Qed.
+
+Lemma step_J : forall (S1 : pfx -> path -> Prop) (C1 : policy -> Prop) o s,
+  Jt S1 C1 s /\ Gd S1 C1 s ->
+  match o with
+  | Announce p q => hid (stored_form s q) = 0 -> S1 p (stored_form s q)
+  | ReplaceChain c' => C1 c'
+  | _ => True
+  end ->
+  Jt S1 C1 (step s o) /\ Gd S1 C1 (step s o).
+Proof.
+  intros S1 C1 o s [HT HG] Hside. destruct o; simpl.
+  - apply add_path_J; assumption.
+  - apply remove_path_J; assumption.
+  - apply remove_path_J; assumption.
+  - apply flush_J; assumption.
+  - apply register_J; assumption.
+  - apply unregister_J; assumption.
+  - apply replace_chain_J; assumption.
+  - eapply J_vrf; [| | | |split; eassumption]; reflexivity.
+  - eapply J_vrf; [| | | |split; eassumption]; reflexivity.
+  - eapply J_vrf; [| | | |split; eassumption]; reflexivity.
+  - eapply J_vrf; [| | | |split; eassumption]; reflexivity.
+Qed.
+
+Lemma eligible_src_snoc : forall a ops o p qn, eligible_src a ops p qn -> eligible_src a (ops ++ [o]) p qn.
+Proof.
+  intros a ops o p qn (pre&q&post&E&H1&H2). exists pre, q, (post ++ [o]). split; [|auto].
+  rewrite E, <- app_assoc. reflexivity.
+Qed.
+
+Lemma policy_of_snoc : forall pol ops o c, policy_of pol ops c -> policy_of pol (ops ++ [o]) c.
+Proof. intros pol ops o c [H|H]; [left; exact H | right; apply in_or_app; left; exact H]. Qed.
+
+Theorem never_installed : forall (a : sattrs) (pol : policy) (ops : list op),
+  let s := run a pol ops in
+  (forall c p q', In (p, q') (ct_get c (ctabs s)) -> justified a pol ops p q') /\
+  (forall e c p q', In e (log s) -> delivered e = Some (c, p, q') -> justified a pol ops p q').
+Proof.
+  intros a pol ops.
+  assert (H : Jt (eligible_src a ops) (policy_of pol ops) (run a pol ops) /\
+              Gd (eligible_src a ops) (policy_of pol ops) (run a pol ops)).
+  { induction ops as [|o ops IH] using rev_ind.
+    - unfold run. simpl. split; [split; [intros p q [] | left; reflexivity]|]. split; simpl.
+      + intros c p q' [].
+      + intros e c p q' [].
+    - rewrite run_snoc.
+      assert (IH' : Jt (eligible_src a (ops ++ [o])) (policy_of pol (ops ++ [o])) (run a pol ops) /\
+                    Gd (eligible_src a (ops ++ [o])) (policy_of pol (ops ++ [o])) (run a pol ops)).
+      { eapply J_mono; [| |exact IH]; intros; [apply eligible_src_snoc | apply policy_of_snoc]; assumption. }
+      apply step_J; [exact IH'|]. destruct o; try exact I.
+      + (* Announce: the stored form of an eligible announcement is a source *)
+        intro Hh. unfold run in *.
+        destruct (run_facts a ops (init a pol) (mkSS [] [] []) (Base_init a pol) (Sim_init a pol)) as (_&[Hsa _ Has Hcs]&_).
+        set (s0 := fold_left step ops (init a pol)) in *. fold (spec_run a ops) in Has, Hcs.
+        destruct (validate_spec a (asns s0) (cids s0) _ _ q Has Hcs) as [V1 V2].
+        rewrite stored_form_hid, Hsa in Hh. rewrite Hh in V1. simpl in V1. symmetry in V1. apply negb_true_iff in V1.
+        exists ops, q, []. split; [reflexivity|]. split; [exact V1|].
+        rewrite stored_form_eligible by (rewrite Hsa, Hh; reflexivity). rewrite Hsa. apply V2, V1.
+      + right. apply in_or_app. right. left. reflexivity. }
+  destruct H as [_ [G1 G2]]. split; [exact G1 | exact G2].
+Qed.
+
+
+(* if every announcement for p was ineligible when it was received, nobody ever got anything for p *)
+Theorem ineligible_never : forall (a : sattrs) (pol : policy) (ops : list op) (p : pfx),
+  (forall pre q post, ops = pre ++ Announce p q :: post ->
+     ineligible a (s_las (spec_run a pre)) (s_lcs (spec_run a pre)) q = true) ->
+  let s := run a pol ops in
+  (forall c q', ~ In (p, q') (ct_get c (ctabs s))) /\
+  (forall e c q', In e (log s) -> delivered e <> Some (c, p, q')).
+Proof.
+  intros a pol ops p Hall s. destruct (never_installed a pol ops) as [G1 G2]. fold s in G1, G2.
+  assert (Hno : forall q', ~ justified a pol ops p q').
+  { intros q' (qn&c&(pre&q&post&E&H1&_)&_). rewrite (Hall pre q post E) in H1. discriminate. }
+  split.
+  - intros c q' Hin. eapply Hno, G1, Hin.
+  - intros e c q' Hin Hd. eapply Hno, G2; eassumption.
+Qed.
+
+(* the hidden mark set by validatePath is exactly the five clauses *)
+Theorem hidden_iff_ineligible : forall (a : sattrs) (pol : policy) (ops : list op) (p : pfx) (q : path),
+  let s' := run a pol (ops ++ [Announce p q]) in
+  exists qs, In (p, qs) (tab s') /\ pid qs = pid q /\
+    (hid qs =? 0) = negb (ineligible a (s_las (spec_run a ops)) (s_lcs (spec_run a ops)) q).
+Proof.
+  intros a pol ops p q s'. unfold s'. rewrite run_snoc.
+  destruct (announce_replaces a pol ops p q) as [H1 _].
+  unfold run in *.
+  destruct (run_facts a ops (init a pol) (mkSS [] [] []) (Base_init a pol) (Sim_init a pol)) as (_&[Hsa _ Has Hcs]&_).
+  set (s0 := fold_left step ops (init a pol)) in *. fold (spec_run a ops) in Has, Hcs.
+  exists (stored_form s0 q). split; [|split].
+  - assert (Hin : In (p, stored_form s0 q) (filter (sel (addpath_rx a) p (pid q)) (tab (step s0 (Announce p q))))).
+    { rewrite H1. left. reflexivity. }
+    apply filter_In in Hin. apply Hin.
+  - apply stored_form_pid.
+  - rewrite stored_form_hid, Hsa. apply validate_spec; assumption.
+Qed.
+
+Theorem otc_matrix : forall (a : sattrs) (q : path),
+  otc_check_fails a q =
+  roles_negotiated a && otc_table (role_remote a) (negb (otc q =? 0)) (otc q =? peer_asn a).
+Proof.
+  intros a q. unfold otc_check_fails, otc_table. destruct (roles_negotiated a); [|reflexivity]. simpl.
+  destruct (role_remote a) as [|r]; [simpl; rewrite ?andb_false_r; reflexivity|].
+  destruct r as [r|r|]; [destruct r as [r|r|] | destruct r as [r|r|] |]; simpl;
+    try (destruct r; simpl); rewrite ?andb_false_r, ?orb_false_r, ?andb_true_r; try reflexivity.
+Qed.
